@@ -195,6 +195,9 @@ type ChunkRace struct {
 	NA, NB  int    `json:"na_nb"`
 	Reader  string `json:"reader"` // get | gat | append
 	Choices []int  `json:"choices"`
+	// KindB: the second writer's command when it is not a set (replace | add; either may be refused,
+	// depending on where the first writer is)
+	KindB string `json:"kindB,omitempty"`
 }
 
 type chunkRaceResult struct {
@@ -224,6 +227,9 @@ func runChunkRace(sc ChunkRace, prefix []int) *chunkRaceResult {
 	}
 	opA := wire.Op{Kind: "set", Key: key, VGen: true, VLen: size(sc.NA), VSeed: 71, Flags: 0xA}
 	opB := wire.Op{Kind: "set", Key: key, VGen: true, VLen: size(sc.NB), VSeed: 72, Flags: 0xB}
+	if sc.KindB != "" {
+		opB.Kind = sc.KindB
+	}
 	written := [][]byte{opA.Value(), opB.Value()}
 	flags := []uint32{0xA, 0xB}
 	var suffix []byte
@@ -273,6 +279,9 @@ func runChunkRace(sc ChunkRace, prefix []int) *chunkRaceResult {
 		w := "set/set"
 		if sc.Mode != "" {
 			w = sc.Mode
+		}
+		if sc.KindB != "" {
+			w = "set/" + sc.KindB
 		}
 		res.Findings = append(res.Findings, Finding{Sig: fmt.Sprintf("C05 %s writers=%s reader=%s", clause, w, sc.Reader), What: what, Clause: clause})
 	}
@@ -327,22 +336,33 @@ func exploreChunkRaces(c *rt.Ctx, item *int) {
 		mode string
 		sh   [2]int
 		rd   string
+		kb   string
 	}
 	var progs []prog
+	// the second writer replaces / adds instead of setting (other request builders, and it may be
+	// refused half-way through the first writer's set)
+	for _, kb := range []string{"replace", "add"} {
+		for _, rd := range []string{"get", "gat"} {
+			progs = append(progs, prog{"", [2]int{2, 2}, rd, kb})
+			if c.Thorough() {
+				progs = append(progs, prog{"", [2]int{1, 2}, rd, kb}, prog{"", [2]int{2, 1}, rd, kb})
+			}
+		}
+	}
 	for _, sh := range shapes {
 		for _, rd := range []string{"get", "gat", "append"} {
-			progs = append(progs, prog{"", sh, rd})
+			progs = append(progs, prog{"", sh, rd, ""})
 		}
 	}
 	for _, sh := range shapes {
 		for _, rd := range []string{"get", "gat"} {
-			progs = append(progs, prog{"sameconn", sh, rd})
+			progs = append(progs, prog{"sameconn", sh, rd, ""})
 		}
 	}
 	for _, mode := range []string{"append", "prepend"} {
 		for _, n := range []int{1, 2, 3} {
 			for _, rd := range []string{"get", "gat"} {
-				progs = append(progs, prog{mode, [2]int{n, n}, rd})
+				progs = append(progs, prog{mode, [2]int{n, n}, rd, ""})
 			}
 		}
 	}
@@ -353,7 +373,7 @@ func exploreChunkRaces(c *rt.Ctx, item *int) {
 			if !c.Mine(*item) {
 				continue
 			}
-			sc := ChunkRace{Mode: pg.mode, NA: sh[0], NB: sh[1], Reader: rd}
+			sc := ChunkRace{Mode: pg.mode, NA: sh[0], NB: sh[1], Reader: rd, KindB: pg.kb}
 			b := bound
 			if sh[0]+sh[1] >= 5 {
 				b = 3
@@ -385,7 +405,7 @@ func exploreChunkRaces(c *rt.Ctx, item *int) {
 			if ex.Truncated {
 				c.Cap(fmt.Sprintf("schedule cap reached for chunk race %v reader %s (preemption bound %d)", sh, rd, b))
 			}
-			key := fmt.Sprintf("race|%s|%v|%s", pg.mode, sh, rd)
+			key := fmt.Sprintf("race|%s%s|%v|%s", pg.mode, pg.kb, sh, rd)
 			c.Distinct(key)
 			c.Nontrivial(key)
 			c.State(int64(len(outs)))
